@@ -9,7 +9,7 @@ ap.add_argument("--seed", default="1")
 ap.add_argument("--jobs", type=int, default=4)
 ap.add_argument("props", nargs="*")
 a = ap.parse_args()
-props = a.props or sorted(f[:-3] for f in os.listdir(os.path.join(HERE, "props")) if f.startswith("C") and f.endswith(".py"))
+props = a.props or sorted(f[:-3] for f in os.listdir(os.path.join(HERE, "props")) if __import__("re").fullmatch(r"C\d+\.py", f))
 def run(p):
     t = time.time()
     r = subprocess.run([os.path.join(HERE, "check"), p, "--tier", a.tier, "--seed", a.seed], cwd=HERE,
